@@ -25,8 +25,14 @@ CONSTANTS BSeq,          \* sequence of non-genesis block ids, parents precede c
           AllowSetHead,  \* BOOLEAN
           FixAbove,      \* TRUE: reorg() deletes number->hash entries above the new head (code after fix D1)
           FixLookup,     \* TRUE: SetHead deletes the lookup entries of the bodies it deletes (code after fix D12)
-          FixOrphan      \* TRUE: WriteHeader refuses a branch with a missing ancestor (code after fix D13);
+          FixOrphan,     \* TRUE: WriteHeader refuses a branch with a missing ancestor (code after fix D13);
                          \* FALSE: it dereferences the missing header (panic)
+          PrunedRewind,  \* TRUE: SetHead may find the state of its target pruned and fall back to any lower ancestor
+                         \* (pruning node after a restart), leaving canonical entries and bodies above the block head
+          KeepDescendants, \* TRUE: a block that already is canonical at its number and is executed again (after a rewind below it) keeps the
+                         \* canonical entries above it - they are its descendants on the header chain (code after fix D17)
+          FixDisplaced   \* TRUE: a new head drops the lookups of every canonical block it overwrites or clears, also above
+                         \* the old block head (code after fix D16)
 
 G == "g"
 NB == Len(BSeq)
@@ -76,17 +82,6 @@ Num(b) == T.num[b]
 Par(b) == T.parent[b]
 Anc(b, n) == AncestorAt(T, b, n)
 
-\* BlockChain.insert applied to the head triple
-InsertSt(st, b) ==
-  LET upd == st.canon[Num(b)] # b IN
-  [canon |-> [st.canon EXCEPT ![Num(b)] = b],
-   head  |-> b,
-   hhead |-> IF upd THEN b ELSE st.hhead,
-   fhead |-> IF upd THEN b ELSE st.fhead]
-
-RECURSIVE InsertAll(_, _)
-InsertAll(st, seq) == IF seq = <<>> THEN st ELSE InsertAll(InsertSt(st, Head(seq)), Tail(seq))
-
 \* path from b (inclusive) down to height n (exclusive), newest first
 RECURSIVE PathDown(_, _)
 PathDown(b, n) == IF Num(b) <= n THEN <<>> ELSE <<b>> \o PathDown(Par(b), n)
@@ -113,16 +108,38 @@ DropKeys(f, ks) == [k \in (DOMAIN f) \ ks |-> f[k]]
 
 ClearAbove(cn, n) == [m \in Heights0 |-> IF m > n THEN NoBlock ELSE cn[m]]
 
-\* BlockChain.reorg(old, new): returns [st, lookup]
-Reorg(st, lk, old, new) ==
+\* BlockChain.insert / writeHead applied to the head triple, the number index and the lookups (st.lookup).  If b is not yet canonical
+\* at its number ("updateHeads"), the canonical entries above it are removed (FixAbove) and the lookups that still point at the blocks
+\* named at and above its number go (FixDisplaced); if it already is canonical (it is executed again after a rewind below it)
+\* everything above stays (KeepDescendants).  bod = the bodies present.
+InsertSt(st, b, bod) ==
+  LET upd == st.canon[Num(b)] # b
+      clr == upd \/ ~KeepDescendants
+      displaced == {st.canon[m] : m \in {k \in Heights0 : k >= Num(b) /\ st.canon[k] # NoBlock}} \ {b}
+      cn1 == [st.canon EXCEPT ![Num(b)] = b]
+  IN [canon |-> IF FixAbove /\ clr THEN ClearAbove(cn1, Num(b)) ELSE cn1,
+      head  |-> b,
+      hhead |-> IF upd THEN b ELSE st.hhead,
+      fhead |-> IF upd THEN b ELSE st.fhead,
+      lookup |-> IF FixDisplaced /\ clr THEN DropKeys(st.lookup, {t \in DOMAIN st.lookup : st.lookup[t][1] \in (displaced \cap bod)}) ELSE st.lookup]
+
+\* reorg(): every block of the new chain that is on disk is inserted and its lookups written, oldest first
+RECURSIVE InsertAll(_, _, _)
+InsertAll(st, seq, bod) ==
+  IF seq = <<>> THEN st
+  ELSE LET s1 == InsertSt(st, Head(seq), bod)
+       IN InsertAll([s1 EXCEPT !.lookup = WriteLookups(s1.lookup, <<Head(seq)>>)], Tail(seq), bod)
+
+\* BlockChain.reorg(old, new) for an incoming block new that is not on disk yet: its ancestors down to the fork point are inserted;
+\* the lookups of old-chain transactions that are not on the new chain are deleted.  Returns the state record.
+Reorg(st, old, new, bod) ==
   LET ch == CommonHeight(old, new)
       newChain == PathDown(new, ch)            \* newest first, includes new itself
       oldChain == PathDown(old, ch)
-      st1 == InsertAll(st, Rev(newChain))
-      lk1 == WriteLookups(lk, Rev(newChain))
-      gone == TxsOf(SeqSet(oldChain)) \ TxsOf(SeqSet(newChain))
-      st2 == IF FixAbove THEN [st1 EXCEPT !.canon = ClearAbove(st1.canon, Num(new))] ELSE st1
-  IN [st |-> st2, lookup |-> DropKeys(lk1, gone)]
+      onDisk == IF new \in bod THEN newChain ELSE Tail(newChain)      \* the incoming block itself is left to WriteBlockWithState
+      st1 == InsertAll(st, Rev(onDisk), bod)
+      goneOld == TxsOf(SeqSet(oldChain)) \ TxsOf(SeqSet(newChain))
+  IN [st1 EXCEPT !.lookup = DropKeys(st1.lookup, goneOld)]
 
 Coin == {TRUE, FALSE}
 
@@ -135,17 +152,18 @@ ImportBlock(b) ==
   /\ LET externTd == Add(tdS[Par(b)], T.diff[b])
          localTd == tdS[head]
          c == Cmp(externTd, localTd)
-         st0 == [canon |-> canon, head |-> head, hhead |-> hhead, fhead |-> fhead]
+         st0 == [canon |-> canon, head |-> head, hhead |-> hhead, fhead |-> fhead, lookup |-> lookup]
      IN \E coin \in Coin :
         LET doReorg == c > 0 \/ (c = 0 /\ (Num(b) < Num(head) \/ (Num(b) = Num(head) /\ coin)))
             needReorg == doReorg /\ Par(b) # head
             \* reorg() walks the new branch through the DATABASE: after a rewind an ancestor may be gone
             \* ("invalid new chain"); the import then fails after hc.WriteTd and before the batch is flushed
             pathOK == \A x \in SeqSet(PathDown(Par(b), CommonHeight(head, b))) : x \in bodies /\ x \in hdrs
-            r == IF needReorg THEN Reorg(st0, lookup, head, b)
-                 ELSE [st |-> st0, lookup |-> lookup]
-            lk2 == IF doReorg THEN WriteLookups(r.lookup, <<b>>) ELSE r.lookup
-            st3 == IF doReorg THEN InsertSt(r.st, b) ELSE r.st
+            r == IF needReorg THEN Reorg(st0, head, b, bodies) ELSE st0
+            \* WriteBlockWithState: lookups of the incoming block, then writeHead in the batch
+            r2 == IF doReorg THEN [r EXCEPT !.lookup = WriteLookups(r.lookup, <<b>>)] ELSE r
+            st3 == IF doReorg THEN InsertSt(r2, b, bodies \cup {b}) ELSE r2
+            lk2 == IF doReorg THEN WriteLookups(st3.lookup, <<b>>) ELSE st3.lookup
         IN IF needReorg /\ ~pathOK
            THEN /\ tdS' = (b :> externTd) @@ tdS
                 /\ UNCHANGED <<hdrs, bodies, rcpts, canon, head, hhead, fhead, lookup, given>>
@@ -198,10 +216,11 @@ SetHead(n) ==
          bodies1 == bodies \ delChain
          getBlock(x) == IF x \in bodies1 /\ x \in (hdrs \ delChain) THEN x ELSE NoBlock
          head1 == IF Num(hh) < Num(head) THEN getBlock(hh) ELSE head
-         head2 == IF head1 = NoBlock THEN G ELSE head1
+         head2a == IF head1 = NoBlock THEN G ELSE head1
          fhead1 == IF Num(hh) < Num(fhead) THEN getBlock(hh) ELSE fhead
          fhead2 == IF fhead1 = NoBlock THEN G ELSE fhead1
-     IN /\ hdrs' = hdrs \ delChain
+     IN \E head2 \in (IF PrunedRewind THEN {Anc(head2a, k) : k \in 0..Num(head2a)} ELSE {head2a}) :      \* state of the target pruned: any ancestor
+        /\ hdrs' = hdrs \ delChain
         /\ bodies' = bodies1
         /\ tdS' = DropKeys(tdS, delChain)
         /\ canon' = [m \in Heights0 |-> IF m > n /\ m <= Num(hhead) THEN NoBlock ELSE canon[m]]
@@ -231,7 +250,12 @@ HeadTdMonotoneProp == [][(\E b \in Blocks : ImportBlock(b)) => Leq(TrueTd(T, hea
 CanonIsAncestryInv == CanonIsAncestry(T, Obs)
 NothingAboveHeadInv == NothingAboveHead(T, Obs)
 RetrievableInv == Retrievable(T, Obs)
-LookupInv == Mode = "full" => LookupIffCanonical(T, Obs, Txs)
+\* lookups follow the canonical blocks that can hold transactions: the gap-free run of canonical numbers whose bodies are present
+\* (its top is the block head except after a pruned rewind)
+BodyCanonTopM == LET ns == {n \in Heights0 : \A m \in 0..n : Obs.canonB[m] # NoBlock}
+                     top == CHOOSE n \in ns : \A k \in ns : k <= n
+                 IN Obs.canonB[top]
+LookupInv == Mode = "full" => LookupIffCanonical(T, [Obs EXCEPT !.head = BodyCanonTopM], Txs)
 \* sanity of the model itself
 NoPanic == ~panicked
 TypeOK == /\ head \in bodies /\ hhead \in hdrs /\ head \in DOMAIN tdS /\ hhead \in DOMAIN tdS
